@@ -169,12 +169,12 @@ type gun struct {
 var errBind = errors.New("gun bind failure (injected)")
 
 func (g *gun) Bind(_ core.Aggregator, deps core.GunDeps) error {
+	if g.slowBind > 0 {
+		time.Sleep(g.slowBind)
+	}
 	if g.failBind != nil {
 		g.failBind()
 		return errBind
-	}
-	if g.slowBind > 0 {
-		time.Sleep(g.slowBind)
 	}
 	now := time.Now()
 	g.w.mu.Lock()
@@ -367,7 +367,8 @@ func buildSched(spec string) core.Schedule {
 		case "const":
 			parts = append(parts, schedule.NewConst(num(1), ms(f[2])))
 		case "istep":
-			parts = append(parts, schedule.NewInstanceStep(in(1), in(2), in(3), ms(f[4])))
+			// the constructor the registered `instance_step` schedule plugin uses (runIstep calls NewInstanceStep directly)
+			parts = append(parts, schedule.NewInstanceStepConf(schedule.InstanceStepConfig{From: in(1), To: in(2), Step: in(3), StepDuration: ms(f[4])}))
 		case "unl":
 			parts = append(parts, schedule.NewUnlimited(ms(f[1])))
 		default:
@@ -925,7 +926,19 @@ func gen(r *vh.Rand, tier string) []string {
 		unlimitedAmmo := false // the case does not depend on the ammo running out: the real Dummy provider fits
 		var rps string
 		shoot = r.PickInt([]int{0, 100, 500})
-		switch r.Intn(12) {
+		switch r.Intn(13) {
+		case 12: // the first instance is slow to create and then fails, the run is cancelled from outside meanwhile
+			// (two causes at once; the engine reports the cancellation, not the pool failure)
+			D := r.PickInt([]int{20, 40})
+			slow = fmt.Sprintf("b%d", D)
+			failGun = "b2"
+			cancelMs = r.Range(2, D-5)
+			if r.Chance(1, 4) {
+				cancelMs = D + r.Range(5, 20) // the failure comes first
+			}
+			T = 40
+			rps = "const:200:200"
+			A = 100000
 		case 10, 11: // the first instance is slow to create (synchronous in the start loop): the tokens behind it
 			// are late by D; the profile then pauses for P: shorter than D (token already due), between D and
 			// 2D (due within the lateness), longer than 2D
